@@ -129,7 +129,10 @@ static ALGOS: [Algo; 8] = [Algo("SUM8"), Algo("CRC16"), Algo("CRC32"), Algo("CRC
 
 pub struct ChecksumServiceContext { m: Mutex<HashMap<String, &'static dyn ChecksumService>> }
 impl ChecksumServiceContext {
-    pub fn get(&self, name: &str) -> Option<&'static dyn ChecksumService> { self.m.lock().unwrap().get(name).copied() }
+    pub fn get(&self, name: &str) -> Option<&'static dyn ChecksumService> {
+        if !REGISTRY_ENABLED.load(std::sync::atomic::Ordering::SeqCst) { return None; }
+        self.m.lock().unwrap().get(name).copied()
+    }
     pub fn register(&self, name: &str, s: &'static dyn ChecksumService) { self.m.lock().unwrap().insert(name.to_string(), s); }
 }
 pub static CHECKSUM_SERVICE_CONTEXT: std::sync::LazyLock<ChecksumServiceContext> = std::sync::LazyLock::new(|| {
@@ -139,6 +142,8 @@ pub static CHECKSUM_SERVICE_CONTEXT: std::sync::LazyLock<ChecksumServiceContext>
 });
 
 // ---- monitor side
+/// the driver empties / restores the registry between encodes (case kind U)
+pub static REGISTRY_ENABLED: std::sync::atomic::AtomicBool = std::sync::atomic::AtomicBool::new(true);
 pub static CKIN: Mutex<Vec<(String, Vec<u8>)>> = Mutex::new(Vec::new());
 pub static TRACE: Mutex<std::collections::BTreeMap<&'static str, u64>> = Mutex::new(std::collections::BTreeMap::new());
 pub fn ev(kind: &'static str) { *TRACE.lock().unwrap().entry(kind).or_insert(0) += 1; }
